@@ -178,11 +178,32 @@ def len_bucket(L):
     return 0 if L == 0 else (1 if L < 8 else (8 if L < 64 else 64))
 
 
+
+def model_find(B, pat, start, end, ba, rev):
+    """First (last) position of pat lying wholly inside [start, end) of the bit string B; () if none; False if the range is invalid."""
+    L = len(B)
+    s_ = 0 if start is None else (start + L if start < 0 else start)
+    e_ = L if end is None else (end + L if end < 0 else end)
+    if not 0 <= s_ <= e_ <= L or not pat:
+        return False
+    hits = []
+    i = B.find(pat, s_, e_)
+    while i != -1:
+        if not ba or i % 8 == 0:
+            hits.append(i)
+            if not rev:
+                break
+        i = B.find(pat, i + 1, e_)
+    if not hits:
+        return ()
+    return (hits[-1],) if rev else (hits[0],)
+
+
 class EStream(Engine):
     prop = 'C06'
     name = 'E-STREAM'
     level = 'exploration'
-    fault_kinds = ('trunc', 'option', 'cache_clear')
+    fault_kinds = ('trunc', 'option', 'cache_clear', 'lsb0_blip')
     mutating_kinds = ('read', 'readlist', 'readto', 'seek', 'bytealign', 'find', 'mut', 'propset', 'trunc')
     rule = ('seeded runs: one stream (class x build route x content kind x initial pos drawn per run, swarm subset of '
             'event families per run) receives 30/60 state-aware events (arguments biased to the remaining length, to '
@@ -886,6 +907,11 @@ class EStream(Engine):
         else:
             ref = call(self.Bm.Bits(bin=B).find, arg, p, bytealigned=eff)
             al = '-bytealigned' if eff else ''
+            pat = kernel.safe_bin(arg) if kernel.is_bits(arg) else (arg[2:] if isinstance(arg, str) and arg.startswith('0b') else None)
+            if pat and len(B) <= 4096 and ref[0] == 'ok' and not self.Bm.options.lsb0:
+                want = model_find(B, pat, p, None, eff, False)
+                if want is not False and canon(ref[1]) != canon(want):
+                    incs.append(self.inc(f'readto|reference-search{al}|not-the-match-in-range', got=canon(ref[1]), want=canon(want), start=p))
             if ref[0] == 'ok' and ref[1]:
                 m = ref[1][0]
                 trig = 'found' + al
@@ -1015,6 +1041,12 @@ class EStream(Engine):
         else:
             if canon(val) != canon(ref[1]) or not isinstance(val, tuple):
                 incs.append(self.inc(f'{op}|{trig}|wrong-return', got=canon(val), want=canon(ref[1])))
+            # "to the match": the reference search itself is held against the model's own bit string (short streams only)
+            pat = kernel.safe_bin(arg) if kernel.is_bits(arg) else (arg[2:] if isinstance(arg, str) and arg.startswith('0b') else None)
+            if pat and len(B) <= 4096 and not self.Bm.options.lsb0:
+                want = model_find(B, pat, a.get('start'), a.get('end'), a.get('bytealigned', bool(self.Bm.options.bytealigned)), rev)
+                if want is not False and canon(ref[1]) != canon(want):
+                    incs.append(self.inc(f'{op}|{trig}|not-the-match-in-range', got=canon(ref[1]), want=canon(want), start=a.get('start'), end=a.get('end')))
             if ref[1]:
                 self._post(incs, op, trig + '-found', (ref[1][0],))
                 if ref[1][0] != p:
@@ -1033,6 +1065,39 @@ class EStream(Engine):
             self.probe('bytealigned option on')
         self._post(incs, 'option', 'bytealigned', (self.p,))
         return {'ba': v}, incs
+
+    def ev_lsb0_blip(self, ev):
+        """options.lsb0 on, one read of an exp-Golomb token (refused in that mode: nothing moves), options.lsb0 off again: the
+        stream - and whatever the package remembers about the token - is as if the option had never been touched."""
+        incs = []
+        name = ev.get('name') if ev.get('name') in VAR else 'ue'
+        sp, how = ev.get('sp'), ev.get('how')
+        D = self.Bm.Dtype
+        self.Bm.options.lsb0 = True
+        try:
+            if sp == 'dtypes':
+                st, fmt = call(D, name, None, scale=ev.get('scale') if ev.get('scale') in (2, 3) else 2)
+            elif sp == 'dtype':
+                st, fmt = call(D, name)
+            else:
+                st, fmt = 'ok', name
+            if st == 'ok':
+                s = self.s
+                fn = {'peek': s.peek, 'readlist': s.readlist, 'peeklist': s.peeklist}.get(how, s.read)
+                st, val = call(fn, [fmt] if how in ('readlist', 'peeklist') else fmt)
+            else:
+                val = fmt
+        finally:
+            self.Bm.options.lsb0 = False
+        self.fault('lsb0_blip')
+        if st == 'ok':
+            # not refused: what such a read means in lsb0 is outside C06 - put the position back and carry on
+            self.probe('golomb read under lsb0 not refused')
+            kernel.set_pos(self.s, self.p)
+        elif exc_is(val, *INTERNAL) and not exc_is(val, 'ValueError', 'IndexError', 'TypeError'):
+            incs.append(self.inc(f'lsb0_blip|golomb|raised:{kernel.exc_name(val)}', msg=str(val)[:200]))
+        self._post(incs, 'lsb0_blip', 'golomb-refused', (self.p,))
+        return {'st': st}, incs
 
     def ev_cache_clear(self, ev):
         incs = []
@@ -1779,6 +1844,10 @@ class EStream(Engine):
         return ev
 
     def _g_option(self, g):
+        if g.chance(0.25):
+            # the other module option, switched on for the length of one call and off again (exp-Golomb codes do not exist in lsb0)
+            return {'k': 'lsb0_blip', 'name': g.pick(VAR), 'sp': g.pick(['plain', 'dtype', 'dtypes']), 'scale': g.pick([2, 3]),
+                    'how': g.pick(['read', 'peek', 'readlist', 'peeklist'])}
         return {'k': 'option', 'ba': g.chance(0.6)}
 
     def _g_cache(self, g):
@@ -2135,6 +2204,12 @@ class EStream(Engine):
             return f"s.{'rfind' if ev.get('r') else 'find'}({', '.join(a)})"
         if k == 'option':
             return f"bitstring.options.bytealigned = {bool(ev.get('ba'))}"
+        if k == 'lsb0_blip':
+            nm = ev.get('name')
+            f = {'dtype': f'Dtype({nm!r})', 'dtypes': f"Dtype({nm!r}, None, scale={ev.get('scale')!r})"}.get(ev.get('sp'), repr(nm))
+            h = ev.get('how') if ev.get('how') in ('read', 'peek', 'readlist', 'peeklist') else 'read'
+            f = f'[{f}]' if h.endswith('list') else f
+            return f'bitstring.options.lsb0 = True\ntry:\n    s.{h}({f})\nexcept Exception:\n    pass\nbitstring.options.lsb0 = False'
         if k == 'cache_clear':
             return '# (every lru_cache of the package cleared here)'
         if k == 'trunc':
